@@ -478,7 +478,10 @@ func (s *expProofStructure) fakeProof(g zkproof.Group, challenge *big.Int) ExpPr
 	}
 
 	for i := range s.interSteps {
-		proof.InterStepsProofs = append(proof.InterStepsProofs, s.interSteps[i].fakeProof(g, challenge))
+		step := s.interSteps[i].fakeProof(g, challenge)
+		// as in a real proof, the multiplier of a step is sent as a copy of the base power it duplicates
+		step.Bproof.Mul.Commit = new(big.Int).Set(proof.BasePowProofs[i].Commit)
+		proof.InterStepsProofs = append(proof.InterStepsProofs, step)
 	}
 
 	return proof
